@@ -57,7 +57,11 @@ def get_good_c(s, mask, nb_initial_samples, use_c=False, **kwargs):
             seen += 1
         if len(cs) == nb_initial_samples:
             break
-    d = distance_matrix(cs, use_c=use_c,  **kwargs)
+    ndim = util.detect_ndim(cs[0])
+    if ndim is not None and ndim > 1:
+        d = dtw_ndim.distance_matrix(cs, use_c=use_c, **kwargs)
+    else:
+        d = distance_matrix(cs, use_c=use_c,  **kwargs)
     d = d.sum(axis=1)
     best_i = np.argmin(d)
     return cs[best_i]
